@@ -6,7 +6,10 @@ class StreamSource:
     """Drives a stream sink endpoint of the DUT with a list of items (dicts: field -> value, plus optional 'first'/'last').
     Holds valid and the payload stable until the beat is accepted."""
 
-    def __init__(self, ep, items, rng, valid_prob=0.8, long_stall=0.0, fields=None):
+    def __init__(self, ep, items, rng, valid_prob=0.8, long_stall=0.0, fields=None, scramble=False):
+        # scramble: payload signals are don't-care while valid is low -- drive random values on them then
+        self.scramble = scramble
+        self.rng = rng
         self.ep = ep
         self.items = items
         self.stall = StallGen(rng, valid_prob, long_stall)
@@ -47,6 +50,10 @@ class StreamSource:
                     stmts.append(ep.valid.eq(0))
             elif not valid:
                 stmts.append(ep.valid.eq(0))
+            if not valid and self.scramble and self.items:
+                for k in self.items[0]:
+                    sig = getattr(ep, k)
+                    stmts.append(sig.eq(self.rng.getrandbits(len(sig))))
             if stmts:
                 yield stmts
             yield
